@@ -281,6 +281,11 @@ func (s *XModel) GetWithTxStatus(bucket string, key []byte) (*kledger.VersionedD
 func (s *XModel) Select(bucket string, startKey []byte, endKey []byte) (kledger.XMIterator, error) {
 	rawStartKey := makeRawKey(bucket, startKey)
 	rawEndKey := makeRawKey(bucket, endKey)
+	if len(endKey) == 0 {
+		// an empty end key means "to the end of the bucket" (as in the sandbox's own ordered maps):
+		// the first raw key after every "bucket/..." key
+		rawEndKey = append([]byte(bucket), BucketSeperator[0]+1)
+	}
 	iter := &XMIterator{
 		bucket: bucket,
 		iter:   s.extUtxoTable.NewIteratorWithRange(rawStartKey, rawEndKey),
